@@ -136,8 +136,12 @@ def execute(plan):
                 elif op[0] == "save_pickle":
                     h0 = state_hash(module)
                     out0 = np.asarray(fwd(module))
-                    path = os.path.join(scratch, f"m{i}.pkl")
+                    same = len(op) > 2 and op[2]
+                    path = os.path.join(scratch, "latest.pkl" if same else f"m{i}.pkl")
                     save_pickle(path, module, move_to_device="cpu" if op[1] else None)
+                    if same:  # a periodically overwritten file: only the newest snapshot must be read back
+                        saves = [x for x in saves if x[1] != path]
+                        res.fault("save_pickle_same_path")
                     saves.append(("pickle", path, h0, out0, bool(op[1])))
                     if state_hash(module) != h0:
                         res.violate("C19.c", site, f"op {i}: save_pickle changed the live module")
@@ -212,7 +216,7 @@ def make_plan(rng):
         if r < 0.4:
             ops.append(["update", rng.choice([1e-3, 1e-2, 0.1])])
         elif r < 0.65:
-            ops.append(["save_pickle", rng.random() < 0.5])
+            ops.append(["save_pickle", rng.random() < 0.5, rng.random() < 0.4])
         else:
             ops.append(["record", rng.choice([0, 1, 1, 2, 5])])
     ops.append(["save_pickle", rng.random() < 0.5])
